@@ -221,10 +221,10 @@ func (ex *Exec) stub(st *State, fr *Frame, fn *ssa.Function, args []Value, isDef
 		return h, true
 	case "fmt.Sprintf", "fmt.Sprint", "fmt.Sprintln":
 		ex.stats.Stubs[full]++
-		return ex.opaqueString(st, "fmt"), true
+		return ex.opaqueFormat(st, full, args), true
 	case "fmt.Errorf":
 		ex.stats.Stubs[full]++
-		s := ex.opaqueString(st, "fmt")
+		s := ex.opaqueFormat(st, full, args)
 		return ex.newErrorString(st, s), true
 	case "fmt.Fprintf", "fmt.Fprint", "fmt.Fprintln", "fmt.Printf", "fmt.Println", "fmt.Print":
 		ex.stats.Stubs[full]++
@@ -273,10 +273,71 @@ func poolKey(p PtrV) int {
 	return k
 }
 
+// valueKey identifies a value for the purpose of making formatting deterministic.
+func (ex *Exec) valueKey(st *State, v Value, depth int) string {
+	if depth > 4 {
+		return "?"
+	}
+	switch x := v.(type) {
+	case *Term:
+		return fmt.Sprintf("t%d", x.id)
+	case StrV:
+		return fmt.Sprintf("s%d:%d:%d", x.Obj, x.Off.id, x.Len.id)
+	case PtrV:
+		return fmt.Sprintf("p%d%v", x.Obj, x.Path)
+	case IfaceV:
+		if x.T == nil {
+			return "nil"
+		}
+		return x.T.String() + "(" + ex.valueKey(st, x.V, depth+1) + ")"
+	case SliceV:
+		if x.Obj == 0 {
+			return "[]"
+		}
+		o := ex.obj(st, x.Obj)
+		k := "["
+		if o.kind != KCells {
+			k = fmt.Sprintf("sl%d:%d:%d[", x.Obj, x.Off.id, x.Len.id)
+		}
+		if o.kind == KCells && x.Len.Op == OConst && x.Off.Op == OConst && x.Len.K <= 8 {
+			arr := ex.cellByPath(st, o, x.Path)
+			for i := uint64(0); i < x.Len.K; i++ {
+				k += ex.valueKey(st, ex.cellLoad(ex.cellAt(arr, int64(x.Off.K+i))), depth+1) + ","
+			}
+		}
+		return k + "]"
+	case StructV:
+		k := "{"
+		for _, f := range x {
+			k += ex.valueKey(st, f, depth+1) + ","
+		}
+		return k + "}"
+	}
+	return fmt.Sprintf("%T", v)
+}
+
+// opaqueFormat models fmt.Sprintf & co. as a deterministic function of the call site and the
+// arguments: an opaque non-empty string (formatting is never the subject of a property).
+func (ex *Exec) opaqueFormat(st *State, fn string, args []Value) StrV {
+	key := fn + "@" + ex.site(st)
+	for _, a := range args {
+		key += "|" + ex.valueKey(st, a, 0)
+	}
+	if st.formats == nil {
+		st.formats = map[string]StrV{}
+	}
+	if s, ok := st.formats[key]; ok {
+		return s
+	}
+	s := ex.opaqueString(st, "fmt")
+	st.formats[key] = s
+	return s
+}
+
 func (ex *Exec) opaqueString(st *State, hint string) StrV {
 	ts := ex.ts
 	n := ts.Fresh(64, hint+"len")
-	ex.addPC(st, ts.Ule(n, ts.Const(64, 200)))
+	ex.addPC(st, ts.BAnd(ts.Ule(ts.Const(64, 1), n), ts.Ule(n, ts.Const(64, 200))))
 	id := ex.newBytesObj(st, ts.BaseArr(hint), n, nil)
 	o := ex.obj(st, id)
 	o.readonly = true
